@@ -27,6 +27,7 @@ typedef void (*sighandler_t)(int);
 static int in_child_process(void);
 static int wait_for_child_process(void);
 static void stop(void);
+static void stop_after_timeout(int signal_number);
 static void ignore_ctrl_c(void);
 static void allow_ctrl_c(void);
 
@@ -85,7 +86,7 @@ static int wait_for_child_process(void) {
 }
 
 void die_in(unsigned int seconds) {
-    sighandler_t signal_result = signal(SIGALRM, (sighandler_t)&stop);
+    sighandler_t signal_result = signal(SIGALRM, &stop_after_timeout);
     if (SIG_ERR == signal_result) {
         fprintf(stderr, "could not set alarm signal handler\n");
         return;
@@ -100,16 +101,26 @@ void run_specified_test_if_child(TestSuite *suite, TestReporter *reporter){
     (void)reporter;
 }
 
-static void stop(void) {
+static void stop_with(int status) {
     CGREEN_VERIF_KILLPOINT("at_exit");
 #ifdef CGREEN_INTERNAL_WITH_GCOV
     if (1)
 #else
     if (getenv("CGREEN_CHILD_EXIT_WITH__EXIT") == NULL)
 #endif
-        exit(EXIT_SUCCESS);
+        exit(status);
     else
-        _exit(EXIT_SUCCESS);
+        _exit(status);
+}
+
+static void stop(void) {
+    stop_with(EXIT_SUCCESS);
+}
+
+/* A test that runs out of time never ends its process with a status that reads as success */
+static void stop_after_timeout(int signal_number) {
+    (void)signal_number;
+    stop_with(EXIT_FAILURE);
 }
 
 static void ignore_ctrl_c(void) {
